@@ -24,7 +24,7 @@ def generate(seed, tier):
     for i in range(n_cases):
         rng = derived_rng(seed, 'C17', i)
         while True:
-            ds = gen.gen_dataset(rng, max_dims=3, max_size=4, dtypes=('f8', 'f4', 'i4'))
+            ds = gen.gen_dataset(rng, max_dims=3, max_size=4, dtypes=('f8', 'f4', 'i4'), long_prob=0.1)
             if gen.n_points(ds['pos']) * gen.n_points(ds['spec']) <= 300:
                 break
         cases.append({'ds': ds, 'path': rng.choice(['default', 'default', 'explicit', 'explicit', 'temp.csv', 'sub/out.csv']),
